@@ -649,3 +649,48 @@ def m_hex(x):
 
 m_hex.__symx_model__ = True
 symx.BUILTIN_MODELS["hex"] = m_hex
+
+
+# ---- str.splitlines / bytes.splitlines over symbolic cells (CPython's line boundaries; \r\n counts as one) ---------------------
+_STR_LINE_BOUNDARIES = (0x0A, 0x0B, 0x0C, 0x0D, 0x1C, 0x1D, 0x1E, 0x85, 0x2028, 0x2029)
+_BYTES_LINE_BOUNDARIES = (0x0A, 0x0D)
+
+
+def _cell_is(c, v, w):
+    if isinstance(c, int):
+        return c == v
+    return truth(mkbool(c == z3.BitVecVal(v, w)))
+
+
+def seq_splitlines(self, keepends=False):
+    T = type(self)
+    w = T.CELLW
+    bounds = _STR_LINE_BOUNDARIES if T is SymStr else _BYTES_LINE_BOUNDARIES
+    out, cur = [], []
+    cells = list(self.cells)
+    i = 0
+    while i < len(cells):
+        c = cells[i]
+        if isinstance(c, int):
+            isb = c in bounds
+        else:
+            isb = truth(mkbool(z3.Or(*[c == z3.BitVecVal(b, w) for b in bounds])))
+        if not isb:
+            cur.append(c)
+            i += 1
+            continue
+        end = [c]
+        if _cell_is(c, 0x0D, w) and i + 1 < len(cells) and _cell_is(cells[i + 1], 0x0A, w):
+            end.append(cells[i + 1])
+        if truth(keepends):
+            cur.extend(end)
+        out.append(unwrap(T(cur)))
+        cur = []
+        i += len(end)
+    if cur:
+        out.append(unwrap(T(cur)))
+    return out
+
+
+SymStr.splitlines = seq_splitlines
+SymBytes.splitlines = seq_splitlines
